@@ -22,7 +22,8 @@ RULE = ("part class = one of the kit classes that derive their structure from th
         "accepted, overhangs and target equal the generic ones. characterize(): on "
         "YTKPart/CIDARPart/EcoFlexPart/MoCloPart and on user-defined bases with 1-4 "
         "subclasses: returns an instance of a candidate (direct subclass, or the class "
-        "itself if concrete) that the oracle says accepts; RuntimeError iff none "
+        "itself if concrete; candidates may override the base's cutter, as "
+        "MoCloLevelMVector does) that the oracle says accepts; RuntimeError iff none "
         "accepts. Non-trivial = near-miss or degenerate-signature case; distinct = "
         "distinct spec.")
 ASSUMPTIONS = [
@@ -118,15 +119,18 @@ def check(spec, ctx):
     if spec["base"] in BASES:
         import importlib
         base = getattr(importlib.import_module("moclo.kits." + spec["base"]), BASES[spec["base"]])
-        e = base.cutter
     else:
-        e = dna.enzyme_by_name(spec["enzyme"])
-        M, V = plasmid.generic_classes(e, fresh=True)
-        base = type(str("UserBase"), (AbstractPart,), {"cutter": e, "signature": NotImplemented})
+        e0 = dna.enzyme_by_name(spec["enzyme"])
+        base = type(str("UserBase"), (AbstractPart,), {"cutter": e0, "signature": NotImplemented})
         subs = []
-        for i, (role, up, down) in enumerate(spec["subs"]):
-            subs.append(type(str("UserType%d" % i), (base, M if role == "M" else V),
-                             {"signature": (up, down)}))
+        for i, sub in enumerate(spec["subs"]):
+            role, up, down = sub[0], sub[1], sub[2]
+            ei = dna.enzyme_by_name(sub[3]) if len(sub) > 3 else e0
+            Mi, Vi = plasmid.generic_classes(ei, fresh=True)
+            subs.append(type(str("UserType%d" % i), (base, Mi if role == "M" else Vi),
+                             {"cutter": ei, "signature": (up, down)}))
+    # the record is built for the enzyme of the candidate it was drawn for
+    e = dna.enzyme_by_name(spec.get("rec_enzyme") or spec.get("enzyme") or base.cutter.__name__)
     g = dna.geometry(e)
     role = "module" if spec["role"] == "M" else "vector"
     b = _record(role, g, spec["rec"])
@@ -135,8 +139,6 @@ def check(spec, ctx):
     cands = list(base.__subclasses__())
     if not isabstract(base):
         cands.append(base)
-    M2, V2 = plasmid.generic_classes(e, fresh=True)
-    derived = set()
     accepting = []
     for c in cands:
         try:
@@ -144,6 +146,7 @@ def check(spec, ctx):
         except Exception:  # noqa
             is_derived = False
         if is_derived:
+            M2, V2 = plasmid.generic_classes(c.cutter, fresh=True)
             G = M2 if kits.role_of(c) == "module" else V2
             ok = oracle_accepts(c.signature, G(b.record()))
         else:
@@ -249,22 +252,28 @@ def _char_specs(draw):
     if draw(st.integers(0, 2)):
         kit = draw(st.sampled_from(sorted(BASES)))
         names = [n for n in derived_parts() if n.startswith(kit) or (kit == "moclo" and n.startswith("plant"))]
-        sigs = [(kits.role_of(kits.resolve_class(n)), kits.resolve_class(n).signature) for n in names]
-        role_, sig = draw(st.sampled_from(sigs))
-        e = kits.resolve_class(names[0]).cutter
-        g = dna.geometry(e)
-        style, up, down = draw(_overhangs(sig, [s for r, s in sigs]))
+        sigs = [(kits.role_of(kits.resolve_class(n)), kits.resolve_class(n).signature,
+                 kits.resolve_class(n).cutter.__name__) for n in names]
+        role_, sig, ename = draw(st.sampled_from(sigs))
+        # candidates that override the base's cutter get their share of cases
+        other = [x for x in sigs if x[2] != sigs[0][2]]
+        if other and draw(st.integers(0, 4)) == 0:
+            role_, sig, ename = draw(st.sampled_from(other))
+        g = dna.geometry(dna.enzyme_by_name(ename))
+        style, up, down = draw(_overhangs(sig, [s for r, s, en in sigs if len(s[0]) == g.k]))
         return {"kind": "characterize", "base": kit, "role": "M" if role_ == "module" else "V",
-                "rec": draw(_rec(g, up, down))}
+                "rec_enzyme": ename, "rec": draw(_rec(g, up, down))}
     ename = draw(plasmid.enzyme_strategy())
-    g = dna.geometry(dna.enzyme_by_name(ename))
-    k = g.k
-    sigtext = st.text(alphabet=_SIG_ALPHA, min_size=k, max_size=k)
-    subs = [[draw(st.sampled_from("MV")), draw(sigtext), draw(sigtext)]
-            for _ in range(draw(st.integers(1, 4)))]
-    role_, s0, s1 = draw(st.sampled_from(subs))
-    style, up, down = draw(_overhangs((s0, s1), [(a, b) for r, a, b in subs]))
-    return {"kind": "characterize", "base": "user", "enzyme": ename, "subs": subs,
+    subs = []
+    for _ in range(draw(st.integers(1, 4))):
+        en = ename if draw(st.integers(0, 2)) else draw(plasmid.enzyme_strategy())
+        k = dna.geometry(dna.enzyme_by_name(en)).k
+        sigtext = st.text(alphabet=_SIG_ALPHA, min_size=k, max_size=k)
+        subs.append([draw(st.sampled_from("MV")), draw(sigtext), draw(sigtext), en])
+    role_, s0, s1, en = draw(st.sampled_from(subs))
+    g = dna.geometry(dna.enzyme_by_name(en))
+    style, up, down = draw(_overhangs((s0, s1), [(a, b) for r, a, b, e2 in subs if len(a) == g.k]))
+    return {"kind": "characterize", "base": "user", "enzyme": ename, "subs": subs, "rec_enzyme": en,
             "role": draw(st.sampled_from([role_, role_, "M", "V"])), "rec": draw(_rec(g, up, down))}
 
 
